@@ -20,6 +20,13 @@ def api_digest(it, f, t, chunks, nout):
     v = it.call_instance(d, [])
     scell = it.new_cell(v, "hasher")
     msg = ()
+    if chunks and chunks[0] == "reuse":
+        # the hasher is first finalised in place on the empty message and reset, then reused
+        rs = find(f, r"^<%s as digest::Reset>::reset$" % esc)
+        _, o0 = bytes_cell(it, "out0", nout)
+        it.call_instance(fin, [Ptr(scell, ()), Ptr(o0, ())])
+        it.call_instance(rs, [Ptr(scell, ())])
+        chunks = chunks[1:]
     for i, n in enumerate(chunks):
         bits, cell = bytes_cell(it, "m%d" % i, n)
         it.call_instance(upd, [Ptr(scell, ()), Ptr(cell, (), idx=0, meta=n, ety="u8")])
@@ -31,7 +38,8 @@ def api_digest(it, f, t, chunks, nout):
 
 def chunkings(bb):
     """Message splittings (lengths of successive update calls) around the block boundaries."""
-    return [(0,), (1,), (bb - 1,), (bb,), (bb + 1,), (2 * bb,), (3, 3 * bb + 7), (bb - 1, 2 * bb + 2), (bb, bb), (2 * bb + 5, 0, bb - 5)]
+    return [(0,), (1,), (bb - 1,), (bb,), (bb + 1,), (2 * bb,), (3, 3 * bb + 7), (bb - 1, 2 * bb + 2), (bb, bb), (2 * bb + 5, 0, bb - 5),
+            ("reuse", 3), ("reuse", bb + 1)]
 
 
 def blake_spec(variant, msg):
